@@ -40,8 +40,8 @@ SPACES = [" ", "\t", "\xa0", "\u2003", "\u3000", "\x1f"]
 # Known C02 defects (DESIGN section 10, rows 4-7): re-observed on every run.
 KNOWN_WITNESSES = [
     # still present (known findings): re-observed so that KNOWN-FINDING is printed only while they are there
-    ("{{ [1] }}", {}), ("{{ [a.b] }}", {"a": {"b": 1}}),
     # repaired (proposed_fixes/C02, C17, C19, C20): must stay repaired
+    ("{{ [1] }}", {}), ("{{ [a.b] }}", {"a": {"b": 1}}), ("{% if [1] %}t{% endif %}{{ [a] }}{{ [a].x }}", {"a": 10 ** 5000}),
     ("{{ 1e400 }}", {}), ("{% assign x = 1e400 %}{{ x }}", {}), ("{{ a | compact: 'title' }}", {"a": {}}),
     ("{{ s | truncate: x }}", {"s": "abc", "x": float("inf")}), ("{{ s | slice: x }}", {"s": "abc", "x": float("inf")}),
     ("{% translate count: a %}a{% plural %}b{% endtranslate %}", {"a": {}}),
